@@ -316,7 +316,10 @@ ForgetInFrames(id) == [i \in 1..Len(frames) |-> [frames[i] EXCEPT !.live = @ \ {
 Exp(res, addr, extra) ==
     [res |-> res, addr |-> addr, cur |-> cur', pos |-> IF cur' = 0 THEN 0 ELSE chunks'[cur'].pos,
      allocated |-> StatAllocated(chunks', cur'), count |-> StatCount(chunks', cur'),
-     nchunks |-> Len(chunks'), live |-> DOMAIN blocks', ma |-> ma', x |-> extra]
+     nchunks |-> Len(chunks'), live |-> DOMAIN blocks', ma |-> ma', x |-> extra,
+     fails |-> fails',                                                       \* injected failures so far
+     inaligned |-> \E i \in 1..Len(frames') : frames'[i].kind \in {"aligned", "saligned"},
+     inclaim |-> \E i \in 1..Len(frames') : frames'[i].kind = "claim"]
 
 Step(a, args, exp) == hist' = Append(hist, [a |-> a, args |-> args, exp |-> exp]) /\ nops' = nops + 1
 
@@ -346,7 +349,7 @@ InitWith(c, k) ==
     /\ hist = <<[a |-> "ctor", args |-> k,
                  exp |-> [res |-> "ok", addr |-> 0, cur |-> cur, pos |-> IF cur = 0 THEN 0 ELSE chunks[cur].pos,
                           allocated |-> 0, count |-> StatCount(chunks, cur), nchunks |-> Len(chunks), live |-> {},
-                          ma |-> ma, x |-> NoX]]>>
+                          ma |-> ma, x |-> NoX, fails |-> 0, inaligned |-> FALSE, inclaim |-> FALSE]]>>
 
 Init == \E c \in Cfgs : \E k \in Ctors : InitWith(c, k)
 
@@ -532,7 +535,127 @@ DropArena ==
     /\ UNCHANGED <<cfg, chunks, cur, ma, frames, nextId, fails>>
     /\ Step("drop", [none |-> TRUE],
             [res |-> "ok", addr |-> 0, cur |-> 0, pos |-> 0, allocated |-> 0, count |-> 0,
-             nchunks |-> 0, live |-> {}, ma |-> ma, x |-> NoX])
+             nchunks |-> 0, live |-> {}, ma |-> ma, x |-> NoX, fails |-> fails, inaligned |-> FALSE, inclaim |-> FALSE])
+
+\* ---- requests whose size computation overflows (a layout close to isize::MAX) -----------------------
+\* The fast path fails, the slow path walks the later chunks (resetting them and moving the current chunk forward)
+\* and then fails to compute a chunk size: capacity overflow, reported as an error; the base allocator is not called.
+HugeSz == 1073741824    \* stands for isize::MAX - 64 in the replayer
+AllocHuge(al) ==
+    /\ Active
+    /\ LET r == DoAlloc(chunks, cur, base, HugeSz, al, ma, TRUE)
+       IN /\ ~r.ok
+          /\ chunks' = r.chunks /\ cur' = r.cur
+          /\ last' = 0
+          /\ UNCHANGED <<cfg, base, ma, frames, blocks, cps, nextId, order, fails, dropped>>
+          /\ Step("alloc_huge", [al |-> al], Exp("err", 0, NoX))
+
+\* ---- deallocate the most recent allocation and request the same layout again (C13) -------------------
+\* two steps of the replayer: "dealloc" then "alloc" with reuse = TRUE (the replayer reports the freed address)
+Realloc(id, wrap) ==
+    /\ Active /\ id \in LiveIds
+    /\ LET b    == blocks[id]
+           chs1 == DoDealloc(chunks, cur, b.addr, b.sz, ma, WD(wrap))
+           r    == DoAlloc(chs1, cur, base, b.sz, b.al, ma, FALSE)
+           antecedent == last = id /\ b.sz % ma = 0 /\ cfg.dealloc /\ ~WD(wrap)
+       IN /\ ~NeedsBase(chs1, cur, b.sz, b.al, ma)
+          /\ r.ok
+          /\ chunks' = r.chunks /\ cur' = r.cur /\ base' = r.base
+          /\ blocks' = [i \in (LiveIds \ {id}) \cup {nextId} |-> IF i = nextId THEN [addr |-> r.addr, sz |-> b.sz, al |-> b.al] ELSE blocks[i]]
+          /\ nextId' = nextId + 1 /\ last' = nextId
+          /\ order' = Append(Without(order, id), nextId)
+          /\ UNCHANGED <<cfg, ma, frames, cps, fails, dropped>>
+          /\ hist' = hist \o <<
+                [a |-> "dealloc", args |-> [id |-> id, wrap |-> wrap, sz |-> b.sz, al |-> b.al],
+                 exp |-> [res |-> "ok", addr |-> 0, cur |-> cur, pos |-> IF cur = 0 THEN 0 ELSE chs1[cur].pos,
+                          allocated |-> StatAllocated(chs1, cur), count |-> StatCount(chs1, cur), nchunks |-> Len(chs1),
+                          live |-> LiveIds \ {id}, ma |-> ma, fails |-> fails,
+                          inaligned |-> \E i \in 1..Len(frames) : frames[i].kind \in {"aligned", "saligned"},
+                          inclaim |-> \E i \in 1..Len(frames) : frames[i].kind = "claim",
+                          x |-> [waslast |-> last = id, wastop |-> Top(order) = id,
+                                 reclaim |-> ~WD(wrap) /\ cfg.dealloc /\ IsLast(chunks, cur, b.addr, b.sz),
+                                 optout |-> WD(wrap) \/ ~cfg.dealloc]]],
+                [a |-> "alloc", args |-> [id |-> nextId, sz |-> b.sz, al |-> b.al, zeroed |-> FALSE, fail |-> FALSE,
+                                           reuse |-> antecedent, of |-> id],
+                 exp |-> Exp("ok", r.addr, [newchunk |-> FALSE])] >>
+          /\ nops' = nops + 2
+
+\* ---- claim --------------------------------------------------------------------------------------------
+\* The guard (claimant) takes over the chunk pointer; the claimed handle is inert until the guard is dropped.
+EnterClaim ==
+    /\ Active /\ Depth < MaxDepth
+    /\ frames' = Append(frames, [kind |-> "claim", cp |-> Checkpoint, live |-> LiveIds, ma |-> ma, cps |-> cps])
+    /\ cps' = <<>>
+    /\ last' = 0
+    /\ UNCHANGED <<cfg, base, chunks, cur, ma, blocks, nextId, order, fails, dropped>>
+    /\ Step("enter", [kind |-> "claim"], Exp("ok", 0, NoX))
+
+\* guard dropped (normally or by unwinding): the claimed handle continues exactly where the guard stopped
+ExitClaim(how) ==
+    /\ Active /\ Depth > 0 /\ frames[Depth].kind = "claim"
+    /\ frames' = SubSeq(frames, 1, Depth - 1)
+    /\ cps' = frames[Depth].cps
+    /\ last' = 0
+    /\ UNCHANGED <<cfg, base, chunks, cur, ma, blocks, nextId, order, fails, dropped>>
+    /\ Step("exit", [kind |-> "claim", how |-> how], Exp("ok", 0, NoX))
+
+ClaimLevels == {i \in 1..Len(frames) : frames[i].kind = "claim"}
+
+\* an operation through a handle that is currently claimed (lvl = which claim frame, counted from the outermost frame)
+\* op \in {"alloc", "reserve", "grow", "dealloc", "shrink", "stats", "claim"}
+ClaimedOp(lvl, op, id, l) ==
+    /\ Active /\ lvl \in ClaimLevels
+    /\ op \in {"grow", "dealloc", "shrink"} => id \in LiveIds
+    /\ op = "grow" => l.sz >= blocks[id].sz
+    /\ op = "shrink" => l.sz <= blocks[id].sz
+    /\ LET b == IF id \in LiveIds THEN blocks[id] ELSE [addr |-> 0, sz |-> 0, al |-> 1]
+           \* shrink through a claimed handle: the pointer is never "last" for the dummy chunk: aligned => unchanged
+           \* (old size returned), unaligned => a fresh allocation, which fails
+           shrinkOk == op = "shrink" /\ b.addr % l.al = 0
+       IN /\ blocks' = CASE op = "dealloc" -> Restrict(blocks, LiveIds \ {id})
+                         [] shrinkOk       -> [blocks EXCEPT ![id] = [addr |-> b.addr, sz |-> l.sz, al |-> l.al]]
+                         [] OTHER          -> blocks
+          /\ order' = IF op = "dealloc" THEN Without(order, id) ELSE order
+          /\ last' = IF op \in {"dealloc", "shrink"} THEN 0 ELSE last
+          /\ UNCHANGED <<cfg, base, chunks, cur, ma, frames, cps, nextId, fails, dropped>>
+          /\ Step("claimed_op", [lvl |-> lvl, op |-> op, id |-> id, sz |-> l.sz, al |-> l.al, osz |-> b.sz, oal |-> b.al],
+                  Exp(CASE op \in {"alloc", "reserve", "grow"} -> "err"
+                        [] op = "claim" -> "panic"
+                        [] op = "shrink" /\ ~shrinkOk -> "err"
+                        [] OTHER -> "ok", IF shrinkOk THEN b.addr ELSE 0, NoX))
+
+\* ---- aligned / scoped_aligned ---------------------------------------------------------------------------
+EnterAligned(n, scoped) ==
+    /\ Active /\ Depth < MaxDepth /\ n \in {1, 2, 4, 8, 16} /\ n # ma
+    /\ frames' = Append(frames, [kind |-> IF scoped THEN "saligned" ELSE "aligned", cp |-> Checkpoint, live |-> LiveIds,
+                                  ma |-> ma, cps |-> cps])
+    /\ cps' = <<>>
+    /\ ma' = n
+    \* raising: the position is aligned before the stricter type is exposed (a dummy chunk is always aligned)
+    /\ chunks' = IF n > ma /\ cur # 0 THEN [chunks EXCEPT ![cur].pos = AlignPos(@, n)] ELSE chunks
+    /\ last' = 0
+    /\ UNCHANGED <<cfg, base, cur, blocks, nextId, order, fails, dropped>>
+    /\ Step("enter", [kind |-> IF scoped THEN "saligned" ELSE "aligned", n |-> n], Exp("ok", 0, NoX))
+
+ExitAligned(how) ==
+    /\ Active /\ Depth > 0
+    /\ LET f == frames[Depth] IN
+       /\ f.kind \in {"aligned", "saligned"}
+       /\ IF f.kind = "saligned"
+          THEN LET r == ResetToCp(chunks, f.cp)
+               IN /\ chunks' = r.chunks /\ cur' = r.cur
+                  /\ blocks' = Restrict(blocks, f.live)
+                  /\ order' = SelectIds(order, f.live)
+          ELSE \* lowered alignment: the guard re-aligns the then-current chunk to the outer alignment
+               /\ chunks' = IF ma < f.ma /\ cur # 0 THEN [chunks EXCEPT ![cur].pos = AlignPos(@, f.ma)] ELSE chunks
+               /\ UNCHANGED <<cur, blocks, order>>
+       /\ frames' = SubSeq(frames, 1, Depth - 1)
+       /\ cps' = f.cps
+       /\ ma' = f.ma
+       /\ last' = 0
+       /\ UNCHANGED <<cfg, base, nextId, fails, dropped>>
+       /\ Step("exit", [kind |-> f.kind, how |-> how],
+               Exp("ok", 0, [entry_cur |-> f.cp.chunk, entry_pos |-> f.cp.pos]))
 
 (***************************************************************************)
 (* CONTRACT: what the properties state, over a projected state.            *)
